@@ -617,8 +617,10 @@ class RatioOfMeans(  # noqa: D101
                     sample_count=x,
                     effect_size=effect_size,
                 )
-            lower_bound = 3
-            upper_bound = _find_boundary(fn, 10)
+            # Each group should have more than one observation on the whole bracket.
+            size_mult = (1 + max(self.ratio, 1 / self.ratio)) / 2
+            lower_bound = 3 * size_mult
+            upper_bound = _find_boundary(fn, 10 * size_mult)
 
         return scipy.optimize.brentq(fn, lower_bound, upper_bound, maxiter=MAX_ITER)  # type: ignore
 
